@@ -235,8 +235,18 @@ func (x *Exec) evalSpecIndex(st *State, e *ast.IndexExpr) *Value {
 	case *types.Slice:
 		idx := x.toIndex(st, idxV)
 		v := x.selectElem(base, x.b.Add(base.L["off"], idx), u.Elem())
+		if kindOf(u.Elem()) == kRef {
+			// references stored in memory denote allocated objects
+			x.assumeWellFormed(st, v)
+		}
 		return v
 	case *types.Array:
+		if u.Len() == strMapLen {
+			if idxV.L == nil {
+				idxV = x.convertConst(idxV, types.Typ[types.String])
+			}
+			return x.selectElem(base, idxV.scalar(), u.Elem())
+		}
 		return x.selectElem(base, x.toIndex(st, idxV), u.Elem())
 	case *types.Basic:
 		if base.L == nil {
@@ -364,8 +374,17 @@ func (x *Exec) evalSpecCall(st *State, e *ast.CallExpr) *Value {
 		}
 		x.fail("spec: len of %v", v.T)
 		return x.constInt(0)
-	case "all", "exists":
+	case "all", "exists", "allsel", "allabs":
 		// all(i, lo, hi, body): forall i. lo <= i < hi ==> body
+		// allsel: the same, with triggers on the array reads indexed by i
+		if name == "allsel" || name == "allabs" {
+			// allabs additionally quantifies over absolute array positions
+			savedPS, savedPA := x.patSelect, x.patAbs
+			x.patSelect = true
+			x.patAbs = name == "allabs"
+			name = "all"
+			defer func() { x.patSelect, x.patAbs = savedPS, savedPA }()
+		}
 		iv, ok := e.Args[0].(*ast.Ident)
 		if !ok || len(e.Args) != 4 {
 			x.fail("spec: all(i, lo, hi, body)")
@@ -384,12 +403,28 @@ func (x *Exec) evalSpecCall(st *State, e *ast.CallExpr) *Value {
 		x.quantDepth--
 		extra := append([]*Term{}, st.pc[mark:]...)
 		st.pc = st.pc[:mark]
+		ix := bv // the value the user's variable stands for
+		if x.patSelect {
+			// triggers must not contain arithmetic: if every array read indexed
+			// through the bound variable has the form arr[off+i] for one offset
+			// term, quantify over the absolute position p = off+i instead
+			if off := x.commonOffset(bv, append([]*Term{body}, extra...)); off != nil && x.patAbs {
+				ix = x.b.Sub(bv, off)
+				st.names[iv.Name] = scalarV(types.Typ[types.Int], ix)
+				mark = len(st.pc)
+				x.quantDepth++
+				body = x.evalCond(st, e.Args[3])
+				x.quantDepth--
+				extra = append([]*Term{}, st.pc[mark:]...)
+				st.pc = st.pc[:mark]
+			}
+		}
 		if had {
 			st.names[iv.Name] = saved
 		} else {
 			delete(st.names, iv.Name)
 		}
-		rng := x.b.And(x.b.Le(lo, bv, true), x.b.Lt(bv, hi, true))
+		rng := x.b.And(x.b.Le(lo, ix, true), x.b.Lt(ix, hi, true))
 		if name == "all" {
 			if x.skolem {
 				// being proved: type invariants of the values read may be assumed
@@ -401,6 +436,33 @@ func (x *Exec) evalSpecCall(st *State, e *ast.CallExpr) *Value {
 			return scalarV(boolT, x.b.Forall([]*Term{bv}, fb, x.inferPatterns([]*Term{bv}, fb)...))
 		}
 		return scalarV(boolT, x.b.Exists([]*Term{bv}, x.b.And(append([]*Term{rng, body}, extra...)...)))
+	case "allstr":
+		// allstr(q, body): forall q string. body
+		iv, ok := e.Args[0].(*ast.Ident)
+		if !ok || len(e.Args) != 2 {
+			x.fail("spec: allstr(q, body)")
+			return x.constInt(0)
+		}
+		x.nameCount["$q"]++
+		bv := x.b.Var(fmt.Sprintf("q!%s!%d", iv.Name, x.nameCount["$q"]), StrSort)
+		saved, had := st.names[iv.Name]
+		st.names[iv.Name] = scalarV(types.Typ[types.String], bv)
+		mark := len(st.pc)
+		x.quantDepth++
+		body := x.evalCond(st, e.Args[1])
+		x.quantDepth--
+		extra := append([]*Term{}, st.pc[mark:]...)
+		st.pc = st.pc[:mark]
+		if had {
+			st.names[iv.Name] = saved
+		} else {
+			delete(st.names, iv.Name)
+		}
+		if x.skolem {
+			return scalarV(boolT, x.b.Forall([]*Term{bv}, x.b.Implies(x.b.And(extra...), body)))
+		}
+		fb := x.b.And(append([]*Term{body}, extra...)...)
+		return scalarV(boolT, x.b.Forall([]*Term{bv}, fb, x.inferPatterns([]*Term{bv}, fb)...))
 	case "allref":
 		iv, ok := e.Args[0].(*ast.Ident)
 		if !ok || len(e.Args) != 2 {
@@ -454,6 +516,20 @@ func (x *Exec) evalSpecCall(st *State, e *ast.CallExpr) *Value {
 		}
 		k := x.coerce(st, x.eval(st, e.Args[1]), u.Key())
 		return scalarV(boolT, x.mapHas(st, m, u, k))
+	case "mapset":
+		// mapset(m, k, v): the ghost string map m with k bound to v
+		mv := x.eval(st, e.Args[0])
+		at, ok := mv.T.Underlying().(*types.Array)
+		if !ok || at.Len() != strMapLen || len(e.Args) != 3 {
+			x.fail("spec: mapset needs a ghost string map, a key and a value")
+			return x.constInt(0)
+		}
+		kv := x.eval(st, e.Args[1])
+		if kv.L == nil {
+			kv = x.convertConst(kv, types.Typ[types.String])
+		}
+		nv := x.coerce(st, x.eval(st, e.Args[2]), at.Elem())
+		return x.storeElem(mv, kv.scalar(), nv)
 	case "seqins", "seqdel":
 		// seqins(s, k, v): s with v inserted at position k; seqdel(s, k): s without position k
 		sv := x.eval(st, e.Args[0])
@@ -795,6 +871,48 @@ func (x *Exec) inferPatterns(bound []*Term, body *Term) [][]*Term {
 		}
 	}
 	walk(body, false)
+	if x.patSelect && len(bound) == 1 {
+		// requested by allsel(): trigger on the innermost array reads whose
+		// index depends on the bound variable
+		cands = nil
+		seen3 := map[*Term]bool{}
+		var hasSel func(t *Term) bool
+		hasSel = func(t *Term) bool {
+			if t.Op == "select" {
+				acc := map[*Term]bool{}
+				mentions(t, acc)
+				if len(acc) > 0 {
+					return true
+				}
+			}
+			for _, a := range t.Args {
+				if hasSel(a) {
+					return true
+				}
+			}
+			return false
+		}
+		var walk3 func(t *Term)
+		walk3 = func(t *Term) {
+			if seen3[t] || t.Op == "forall" || t.Op == "exists" {
+				return
+			}
+			seen3[t] = true
+			if t.Op == "select" {
+				ia := map[*Term]bool{}
+				mentions(t.Args[1], ia)
+				aa := map[*Term]bool{}
+				mentions(t.Args[0], aa)
+				if len(ia) > 0 && len(aa) == 0 && !hasSel(t.Args[1]) {
+					cands = append(cands, t)
+				}
+			}
+			for _, a := range t.Args {
+				walk3(a)
+			}
+		}
+		walk3(body)
+	}
 	if len(cands) == 0 && len(bound) == 1 {
 		// fall back to array reads indexed exactly by the bound variable
 		seen2 := map[*Term]bool{}
@@ -829,4 +947,97 @@ func (x *Exec) inferPatterns(bound []*Term, body *Term) [][]*Term {
 		pats = append(pats, []*Term{c})
 	}
 	return pats
+}
+
+// commonOffset: every array read whose index mentions bv has index off+bv for
+// one and the same term off (not mentioning bv); returns off, or nil.
+func (x *Exec) commonOffset(bv *Term, roots []*Term) *Term {
+	var off *Term
+	ok := true
+	found := false
+	seen := map[*Term]bool{}
+	var mentions func(t *Term) bool
+	mm := map[*Term]bool{}
+	mentions = func(t *Term) bool {
+		if v, done := mm[t]; done {
+			return v
+		}
+		r := t == bv
+		for _, a := range t.Args {
+			if mentions(a) {
+				r = true
+			}
+		}
+		mm[t] = r
+		return r
+	}
+	var walk func(t *Term)
+	walk = func(t *Term) {
+		if seen[t] || !ok {
+			return
+		}
+		seen[t] = true
+		if t.Op == "select" && mentions(t.Args[1]) {
+			idx := t.Args[1]
+			if idx == bv {
+				ok = false // already absolute somewhere
+				return
+			}
+			if idx.Sort != bv.Sort {
+				for _, a := range t.Args {
+					walk(a)
+				}
+				return
+			}
+			l := x.b.linOf(idx)
+			direct := false
+			for _, a := range l.atoms {
+				if a == bv {
+					direct = true
+				}
+			}
+			if !direct {
+				// the variable occurs only inside a nested read: not an index of this array
+				for _, a := range t.Args {
+					walk(a)
+				}
+				return
+			}
+			var o *Term
+			cnt := 0
+			good := l.k.Sign() == 0 && len(l.atoms) == 2
+			if good {
+				for i, a := range l.atoms {
+					if l.coefs[i].Cmp(big.NewInt(1)) != 0 {
+						good = false
+					}
+					if a == bv {
+						cnt++
+					} else {
+						o = a
+					}
+				}
+			}
+			if !good || cnt != 1 || o == nil || mentions(o) {
+				ok = false
+				return
+			}
+			if off != nil && off != o {
+				ok = false
+				return
+			}
+			off = o
+			found = true
+		}
+		for _, a := range t.Args {
+			walk(a)
+		}
+	}
+	for _, r := range roots {
+		walk(r)
+	}
+	if !ok || !found {
+		return nil
+	}
+	return off
 }
